@@ -765,6 +765,48 @@ CHECKS['C19']['note'] = (
     'opposite / near-opposite branches of rotation_matrix_from_to, transform_system\'s 1e-8 snap to the default. Hypotheses '
     'c^2+s^2=1, unit axes, sqrt(s)^2 = s hold only up to rounding.')
 
+CHECKS['C11']['text'] = (
+    '19 theorems (refinement over solver state machines). Substantive: admm_step_refines / admm_refines / admm_logs_agree '
+    '(carried invariant tmp_ran = L x); adupdates_step_refines / adupdates_refines (shared-buffer read-after-write; CONDITIONAL on '
+    'the leaf hypothesis hprox: hoisted proximal = per-iteration proximal; adupdates_refines_needs_prox shows it is needed); '
+    'doubleprox_*refines; pdhg_resume_needs_state; resume_proximal_gradient (constant lam); resume_steepest_descent (stateless '
+    'line search, first call did not raise); kaczmarz / adupdates / osmlem_callback_count. BY CONSTRUCTION of the state machines '
+    '(no hidden state is modelled): resume_landweber, resume_kaczmarz, resume_osmlem, pdhg_resume; callback_once is a lemma about '
+    'the driver loop. That the code has no hidden state and calls back once per iteration rests on the split-run oracle (all '
+    'splits for n <= 8; one shared BacktrackingLineSearch object) and on the comparison of fresh, resumed and half-resumed calls '
+    'against the model. Comparison is exact on short-dyadic inputs and relative 1e-9 per iterate otherwise ("up to rounding" is '
+    'that tolerance). Thorough tier draws n <= 60.')
+CHECKS['C11']['note'] = (
+    'Trusted: Model/Solvers.lean (one let per statement); PSpec closed forms in solverlib.py; NumPy/BLAS arithmetic as exact. '
+    'Non-linear operators are compared against the model through A x^2 only. Tested only, implementation against implementation: '
+    'KL, Huber, L2, group-L1, separable sums, balls; random order; pointwise inner steps under random order. Excluded: accelerated '
+    'PDHG resumption, callable lam, estimate_step=True with a fresh object, gauss_newton, aliasing inside operators (C10), array or '
+    'unequal weightings, complex spaces. Fixed in /repo: mlem/osmlem element sensitivities (26dfc42).')
+CHECKS['C12']['text'] = (
+    'PARTIAL proof + tests. 31 theorems on real inner-product spaces or ordered fields. Proved for the model: Landweber residual '
+    'monotone, and error monotone with a projection; Kaczmarz error monotone in fixed order and in any order; CG energy and CGN '
+    'residual monotone; cg_exact_after_dim_partial (consecutive orthogonality and conjugacy only; exactness after dim steps NOT '
+    'proved); power-method estimate <= ||A|| on both branches; default step rules relative to the norm estimate '
+    '(pdhg_stepsize_product / _admissible, landweber_default_omega_admissible, douglas_rachford_pd_stepsize_sum). By construction '
+    'of the loop: armijo_descent, steepest_descent_mono (no projection; a raise leaves x unchanged), with backtracking_returns as '
+    'the existence half. Resolvent algebra, valid for arbitrary maps related by IsProx: pdhg_, proximal_gradient_, '
+    'accelerated_proximal_gradient_, admm_ (the _simple body), admm_opt_ (the optimised body under tmp_ran = L x) and '
+    'forward_backward_pd_fixed_point_iff (with or without l, aliased or documented); douglas_rachford_pd_fixed_point and '
+    '..._converse_partial (the converse assumes the governing point exists; l = None); isProx_soft_threshold links IsProx to the '
+    'genuine subdifferential of |.|; "solution => KKT" is assumed. F12 on the model: forward_backward_pd_aliased_not_contracting, '
+    '_invariant_run, _never_optimal, _never_at_solution, _distance_lower_bound, and forward_backward_pd_documented_contracts. NOT '
+    'proved, TESTS only: convergence (KKT-residual decay, sub-gradient inclusion with pdhg\'s dual certificate, start-at-solution '
+    'drift, objective agreement, FISTA/ISTA rates); admissibility of the default steps for the TRUE norm. Executed definitions '
+    'without a theorem: DrP.last / DrP.run, accStep momentum, osmlem, drStepsize given-both branch, Douglas-Rachford with l.')
+CHECKS['C12']['note'] = (
+    'Trusted: Mathlib; numpy.linalg for reference quantities; Lean Float = binary64 for the sqrt paths. Real-code oracles recompute '
+    'documented iterations out of place: kaczmarz incl. seeded random order, landweber incl. omega=None, mlem/osmlem with all '
+    'sensitivities forms, pdhg as Chambolle-Pock Algorithm 1/2, admm_linearized, FISTA/ISTA, and forward_backward_pd as documented '
+    'vs aliased. The optimality test class: f is a strongly convex quadratic only; L from the operator zoo incl. gradient, partial '
+    'derivative and weighted matrix; g incl. indicators, KL, Huber, L2, group-L1; 2-3 operators against pdhg on the stacked '
+    'problem. Known finding F12 open; only the alias deviation is suppressed (any other deviation of forward_backward_pd from the '
+    'documented iteration is a separate violation key).')
+
 NOT_YET = {}
 
 
